@@ -444,7 +444,7 @@ class Session:
             self.sim.connect(cid, settle=False)
             return [{"t": "connect", "c": cid}]
         if t == "msg":
-            if cid in self.awaiting or self.sim.conns[cid].task.done():
+            if cid in self.awaiting or self.sim.conns[cid].task.done() or self.sim.client_closed(cid):
                 return None
             self.awaiting[cid] = ev["m"]
             self.sim.feed_raw(cid, ev["raw_bytes"])
@@ -1021,6 +1021,76 @@ def run_sessions(drv, rng, defender_tables, on_fail, stats, n_sessions, n_events
                 stats["samples"].append({"config_env": cfg["env"], "events": sess.events[:12]})
             if sess.settings["storeTraj"] and not sess.diverged:      # (after a divergence the model's file log is not the session's)
                 check_files(sess, on_fail, stats)
+        finally:
+            sess.close()
+
+
+def directed_sessions(drv, rng, defender_tables, on_fail, stats, n):
+    """Short scripted histories that random sessions reach rarely: an agent CHANGES the world (a defender's BlockIP, an
+    attacker's exfiltration) and leaves; an agent that never acted in the episode is the one whose reset request (before
+    or after the departure) completes the reset; then the next episode is played.  Judged like every session (lock-step
+    model, oracles: world restored, start views, answered once ...)."""
+    def ev_game(sess, cid, a, roll=0.9):
+        return {"t": "msg", "c": cid, "m": {"k": "game", "act": sess.akey(a)}, "raw_bytes": a.to_json().encode(), "roll": roll}
+
+    def ev_join(cid, role):
+        return {"t": "msg", "c": cid, "m": {"k": "join", "name": f"agent{cid}", "role": role}, "raw_bytes": J(ActionType.JoinGame, agent_info=AgentInfo(f"agent{cid}", role))}
+
+    def ev_reset(cid, tr=False):
+        return {"t": "msg", "c": cid, "m": {"k": "reset", "traj": tr}, "raw_bytes": J(ActionType.ResetGame, request_trajectory=tr)}
+    ip = IP
+    for i in range(n):
+        cfg = gen_config(rng)
+        cfg["env"].update({"required_players": 2, "use_dynamic_addresses": False, "use_firewall": True, "use_global_defender": False})
+        cfg["coordinator"]["agents"]["Attacker"]["start_position"]["controlled_hosts"] = ["213.47.23.195", "192.168.2.2"]
+        cfg["coordinator"]["agents"]["Attacker"]["max_steps"] = rng.choice([None, 8, 20])
+        if cfg["coordinator"]["agents"]["Attacker"]["max_steps"] is None:
+            del cfg["coordinator"]["agents"]["Attacker"]["max_steps"]
+        cfg["coordinator"]["agents"]["Defender"]["start_position"]["controlled_hosts"] = ["192.168.1.2"]
+        cfg["coordinator"]["agents"]["Defender"]["goal"]["known_blocks"] = {"192.168.1.6": ["213.47.23.195"]}      # not reached by the script
+        cfg["coordinator"]["agents"]["Defender"].pop("max_steps", None)
+        sess = Session(drv, rng, cfg, defender_tables, on_fail, stats, f"directed#{i}")
+        try:
+            if sess.sim.startup_error is not None or sess.sim.server_cb is None:
+                continue
+            modifier_role = rng.choice(["Defender", "Attacker"])
+            idle_role = rng.choice(["Attacker", "Defender"])
+            order = rng.choice(["leave-then-reset", "reset-then-leave"])
+            how = rng.choice(["quit", "eof", "readerr"])
+            evs = [{"t": "connect", "c": 0}, ev_join(0, modifier_role), {"t": "connect", "c": 1}, ev_join(1, idle_role)]
+            if modifier_role == "Defender":
+                evs.append(ev_game(sess, 0, Action(ActionType.BlockIP, {"source_host": ip("192.168.1.2"), "target_host": ip("192.168.1.2"), "blocked_host": ip(rng.choice(["192.168.2.2", "192.168.1.3"]))})))
+            else:
+                net = Network("192.168.1.0", 24)
+                evs += [ev_game(sess, 0, Action(ActionType.ScanNetwork, {"source_host": ip("192.168.2.2"), "target_network": net})),
+                        ev_game(sess, 0, Action(ActionType.FindData, {"source_host": ip("192.168.2.2"), "target_host": ip("192.168.2.2")})),
+                        ev_game(sess, 0, Action(ActionType.FindData, {"source_host": ip("213.47.23.195"), "target_host": ip("213.47.23.195")}))]
+            for e in evs:
+                sess.do(e)
+            if modifier_role == "Attacker":
+                # exfiltrate whatever the attacker found on one of its hosts to the other one
+                v = sess.coord._agent_states.get(PEER(0))
+                if v is not None:
+                    for src in sorted(v.controlled_hosts, key=str):
+                        ds = sorted(v.known_data.get(src, ()), key=repr)
+                        tg = [h for h in sorted(v.controlled_hosts, key=str) if h != src]
+                        if ds and tg:
+                            sess.do(ev_game(sess, 0, Action(ActionType.ExfiltrateData, {"source_host": src, "target_host": tg[0], "data": ds[0]})))
+                            break
+            leave = ({"t": "msg", "c": 0, "m": {"k": "quit"}, "raw_bytes": J(ActionType.QuitGame)} if how == "quit"
+                     else {"t": how, "c": 0, "exc": rng.choice(["reset", "timeout", "pipe"])})
+            tail = [leave, ev_reset(1, rng.random() < 0.5)] if order == "leave-then-reset" else [ev_reset(1, rng.random() < 0.5), leave]
+            for e in tail:
+                sess.do(e)
+            # a replacement joins: the reset completes / the new episode starts; both play a little
+            sess.do({"t": "connect", "c": 2})
+            sess.do(ev_join(2, modifier_role))
+            sc = Script(sess, rng, {"bad": 0.0, "leave": 0.0, "burst": 0.0})
+            for _ in range(8):
+                if sess.broken:
+                    break
+                sess.do(sc.next())
+            stats["directed_sessions"] = stats.get("directed_sessions", 0) + 1
         finally:
             sess.close()
 
